@@ -46,6 +46,10 @@ def main():
     if a.only:
         seeds = [s for s in seeds if s.startswith(a.only)]
     cl = claimed()
+    try:
+        index = json.load(open(os.path.join(HERE, "seeded", "INDEX.json")))
+    except Exception:
+        index = {}
     jobs = []
     for s in seeds:
         if a.props:
@@ -53,7 +57,7 @@ def main():
         elif a.all_props:
             props = cl
         else:
-            props = [p for p in cl if p == s.split("-")[0]]
+            props = [p for p in cl if p in index.get(s, [s.split("-")[-2] if s.startswith("w2-") else s.split("-")[0]])]
         if props:
             jobs.append((s, props))
     with ThreadPoolExecutor(max_workers=a.j) as ex:
